@@ -64,6 +64,31 @@ def scope(tier, quick, thorough):
     return thorough if tier == "thorough" else quick
 
 
+def creation_probes(kind, keys, maxp, maxlen=3, ops=("from_vec", "from_iter", "de", "extend")):
+    """every pair sequence with repeats up to maxlen through the constructing / bulk operations"""
+    import itertools
+    other = "dpq" if kind == "pq" else "pq"
+    allp = [[k, r] for k in keys[:2] + keys[-1:] for r in range(min(maxp, 1) + 1)]
+    seen = []
+    for a in allp:
+        if a not in seen:
+            seen.append(a)
+    allp = seen
+    out = []
+    pm = "pop" if kind == "pq" else "pop_min"
+    for ln in range(0, maxlen + 1):
+        for sq in itertools.product(allp, repeat=ln):
+            sq = [list(x) for x in sq]
+            for o in ops:
+                if o == "extend":
+                    out.append([{"op": "extend", "pairs": sq}, {"op": pm}])
+                    out.append([{"op": "extend", "pairs": sq, "hint": [0, -1]}, {"op": pm}])
+                else:
+                    out.append([{"op": o, "q": 2, "kind": kind, "pairs": sq}, {"op": pm, "q": 2},
+                                {"op": "push", "q": 2, "k": keys[0], "r": 1}, {"op": "contents", "q": 2}])
+    return out
+
+
 def p_C01(tier, seed):
     n, mp = scope(tier, (4, 2), (5, 2))
     f = engines.engine_A("C01", ["pq"], n, mp, light, ["sorted:pop"])
@@ -106,7 +131,13 @@ def p_C04(tier, seed):
                             {"op": pm}, {"op": "push", "k": keys[0], "r": 0}, {"op": "remove", "k": k},
                             {"op": "retain", "keep": keys[:-1]}, {"op": pm}])
         return out
+
+    def creations(kind, keys, maxp):
+        return creation_probes(kind, keys, maxp)
     f = engines.engine_A("C04", ["pq", "dpq"], n, mp, light, ["contents"], extra_probes=extra)
+    # every constructing / bulk operation on every short pair sequence with repeats (from the empty state only)
+    f.merge(engines.engine_A("C04", ["pq", "dpq"], n, mp, lambda p: False, ["contents"], extra_probes=creations,
+                             max_states=1, wd_name="C04c"))
     nh, nk, no = scope(tier, (8, [16, 40], 300), (32, [16, 40, 100], 1500))
     f.merge(engines.engine_B("C04", ["pq", "dpq"], seed, nh, nk, no))
     return f
@@ -461,6 +492,9 @@ def p_C18(tier, seed):
     hs = ("std", "fixed", "fnv", "collide", "random")
     f = engines.engine_A("C18", ["pq", "dpq"], n, mp, light, ["contents", "sorted:pop", "sorted:pop_min", "sorted:pop_max"],
                          hashers=hs)
+    # the constructing / bulk operations (they build their own hasher through Default) under every hasher
+    f.merge(engines.engine_A("C18", ["pq", "dpq"], n, mp, lambda p: False, ["contents"], hashers=hs, max_states=3,
+                             extra_probes=lambda kind, keys, maxp: creation_probes(kind, keys, maxp), wd_name="C18c"))
     nh, nk, no = scope(tier, (10, [16, 40], 300), (40, [16, 40, 100], 1500))
     f.merge(engines.engine_B("C18", ["pq", "dpq"], seed, nh, nk, no, hashers=hs))
     return f
@@ -501,7 +535,7 @@ PROPS = {
     "C17": {"run": p_C17, "level": "model_checking",
             "relevant": lambda fl: True},
     "C18": {"run": p_C18, "level": "model_checking",
-            "relevant": lambda fl: bool(set(fl["tags"]) & (ORDER_TAGS | CONTENT_TAGS | SAFETY_TAGS)) and fl["cause_op"] not in BULK},
+            "relevant": lambda fl: bool(set(fl["tags"]) & (ORDER_TAGS | CONTENT_TAGS | SAFETY_TAGS | {"de_contents"}))},
     "C10": {"run": p_C10, "level": "model_checking", "aborts": True,
             "relevant": lambda fl: "drop_balance" in fl["tags"]},
     "C11": {"run": p_C11, "level": "model_checking",
